@@ -89,6 +89,9 @@ def load_known():
 
 def run(pid, tier, seed, replay_path=None):
     t0 = time.time()
+    # VERIF_SEED only perturbs the solver's search (never the encoding or the bounds)
+    z3.set_param("smt.random_seed", int(seed) % (2 ** 31))
+    z3.set_param("sat.random_seed", int(seed) % (2 ** 31))
     d = make_scratch(pid)
     obligations = []  # dicts: name, result ('unsat' = discharged), detail
     violations, inconclusive, known_hits = [], [], []
@@ -163,6 +166,21 @@ def run(pid, tier, seed, replay_path=None):
                         inconclusive.append(f"the protocol invariant is not inductive for T={T} (pre-state may be unreachable): nothing is claimed beyond the BMC bound; counterexample to induction: {json.dumps(ri.get('counterexample'))[:600]}")
                     else:
                         inconclusive.append(f"inductive check T={T}: unknown")
+                    if not spurious and not violations:
+                        J = {("quick", 2): 5, ("quick", 3): 3, ("thorough", 2): 6, ("thorough", 3): 5}[(tier, T)]
+                        rd, stt = checks.deep_search(proto, J, K, 1500000)
+                        log(f"[C05] two-phase search T={T} J={J}: {'violation' if rd else 'none'} ({stt['time']:.0f}s, {stt['candidates']} candidates)")
+                        if rd is None and stt["candidates"] == 0:
+                            add(f"T={T}: from EVERY state satisfying the inductive invariant, no deadlock and no lost/duplicated work now or within {J} further steps (with the inductive step this covers schedules of any length)", "unsat", solver_s=round(stt["time"], 1), queries=stt["phase1_queries"])
+                        elif rd is None:
+                            info.setdefault("notes", []).append(f"two-phase search T={T}: {stt['candidates']} invariant-state candidates, none reachable from the initial state within {K} steps (discarded)")
+                        else:
+                            cex = {k: rd[k] for k in ("obligation", "step", "trace", "states", "P0", "T", "found_by")}
+                            cex["property"] = "C05"
+                            add(f"two-phase search T={T}: {rd['obligation']}", "sat", step=rd["step"], found_by=rd["found_by"])
+                            violations.append(cex)
+                            samples.append({"counterexample": cex})
+                            break
                 if violations:
                     break
             for o in checks.static_stop_propagation(bm):
